@@ -7,6 +7,8 @@ mod gen;
 mod interp;
 mod model;
 mod refgens;
+mod refipp;
+mod refprover;
 mod refsession;
 mod runner;
 mod selftest;
